@@ -15,6 +15,11 @@
 // that tip's chain; every block whose ProcessBlock returned before the crash is
 // still known; feeding the whole workload again converges to the uninterrupted
 // run's final tip and UTXO set.
+//
+// Part 2 (crashimg.go) drops the assumption that a crash leaves a prefix of
+// commits durable: it records the block-file I/O of the same workloads and opens
+// every crash image (log prefix x lost unsynced writes x torn last write, with the
+// leveldb state of the newest ffldb flush) under the same oracle.
 package main
 
 import (
